@@ -24,7 +24,8 @@ Record hobs := {
   ho_end : Z;                     (* instant it returns *)
   ho_starts : list Z;             (* start instant of every attempt started, in order *)
   ho_winner : option nat;         (* index of the attempt whose result was accepted and returned *)
-  ho_cancelled : list bool }.     (* per started attempt: its execution is cancelled (IsCanceled) when the layer returns *)
+  ho_cancelled : list bool;
+  ho_tie : bool }.                (* two events of the scenario fell on one instant: Go's select may go either way *)     (* per started attempt: its execution is cancelled (IsCanceled) when the layer returns *)
 
 Definition nth_delay (c : hcfg) (k : nat) : Z := nth k (h_delays c) (last (h_delays c) 0).
 
@@ -54,9 +55,9 @@ Definition cancel_result (e : err) : outcome := (0, Some e).
 
 (* the main loop; [ext] = instant and error of the caller context's cancellation *)
 Fixpoint hedge_loop (fuel : nat) (c : hcfg) (atts : list attempt) (ext : option (Z * err))
-    (k : nat) (tk : Z) (rs : list running) (count : nat) (starts : list Z) : hobs :=
+    (k : nat) (tk : Z) (rs : list running) (count : nat) (starts : list Z) (tie : bool) : hobs :=
   match fuel with
-  | O => {| ho_out := (0, Some EOther); ho_end := tk; ho_starts := rev starts; ho_winner := None; ho_cancelled := [] |}
+  | O => {| ho_out := (0, Some EOther); ho_end := tk; ho_starts := rev starts; ho_winner := None; ho_cancelled := []; ho_tie := tie |}
   | S fuel' =>
       let a := nth k atts {| a_dur := 0; a_out := (0, None); a_coop := false |} in
       (* a cooperative attempt started under an already cancelled context returns at once *)
@@ -78,6 +79,14 @@ Fixpoint hedge_loop (fuel : nat) (c : hcfg) (atts : list attempt) (ext : option 
                    | None, Some (tc, _) => if h_fixed c && (tk <=? tc) then Some tc else None
                    | None, None => None
                    end in
+      (* simultaneous events: this attempt's own finish against the cancellation, any pending finish against
+         the hedge timer, the timer against the cancellation, two uncancelled finishes *)
+      let cut := match ext with Some (tc, _) => a_coop a && (tc <? tk + a_dur a) | None => false end in
+      let tie1 := tie
+                  || match ext with Some (tc, _) => (tk + a_dur a =? tc) || (tk =? tc) | None => false end
+                  || existsb (fun r => match timer with Some t => r_finish r =? t | None => false end) rs1
+                  || match timer, ext with Some t, Some (tc, _) => t =? tc | _, _ => false end
+                  || (negb cut && existsb (fun r => negb (Nat.eqb (r_idx r) k) && (r_finish r =? fin)) rs1) in
       let '(acc, rs2, count2) := settle c rs1 count bound in
       let n_started := length starts1 in
       let wake := match acc with
@@ -87,19 +96,19 @@ Fixpoint hedge_loop (fuel : nat) (c : hcfg) (atts : list attempt) (ext : option 
       let parent_cancelled := match ext with Some (tc, _) => tc <=? wake | None => false end in
       if parent_cancelled then
         {| ho_out := cancel_result (match ext with Some (_, e) => e | None => EOther end); ho_end := wake;
-           ho_starts := rev starts1; ho_winner := None; ho_cancelled := repeat true n_started |}
+           ho_starts := rev starts1; ho_winner := None; ho_cancelled := repeat true n_started; ho_tie := tie1 |}
       else
         match acc with
         | Some r =>
             {| ho_out := r_out r; ho_end := r_finish r; ho_starts := rev starts1; ho_winner := Some (r_idx r);
-               ho_cancelled := map (fun i => negb (Nat.eqb i (r_idx r))) (seq 0 n_started) |}
+               ho_cancelled := map (fun i => negb (Nat.eqb i (r_idx r))) (seq 0 n_started); ho_tie := tie1 |}
         | None =>
             match timer with
-            | Some t => hedge_loop fuel' c atts ext (S k) t rs2 count2 starts1
-            | None => {| ho_out := (0, Some EOther); ho_end := wake; ho_starts := rev starts1; ho_winner := None; ho_cancelled := [] |}
+            | Some t => hedge_loop fuel' c atts ext (S k) t rs2 count2 starts1 tie1
+            | None => {| ho_out := (0, Some EOther); ho_end := wake; ho_starts := rev starts1; ho_winner := None; ho_cancelled := []; ho_tie := tie1 |}
             end
         end
   end.
 
 Definition hedge_run (c : hcfg) (atts : list attempt) (ext : option (Z * err)) (t0 : Z) : hobs :=
-  hedge_loop (S (S (h_max c))) c atts ext 0 t0 [] 0 [].
+  hedge_loop (S (S (h_max c))) c atts ext 0 t0 [] 0 [] false.
